@@ -323,6 +323,42 @@ Definition verify_side (O : oracles) (V : variant) (cp : cparams) (vers : list (
     else verify_main O V cp vers seedH lb certH certlb h
   end.
 
+(* ---- the listed finding classes (decidable description, see fixes/C01_*.md) --- *)
+
+(* exact quorum fractions of the protocol (0.685 / 0.585), used by Bridge.v to
+   pin down what the tabulated float computation yields for real thresholds *)
+Definition quorum_frac (T : N) (isPos : bool) : N := (T * (if isPos then 685 else 585)) / 1000.
+
+Definition non_member_counted (O : oracles) (c : common) (step : N) (votes : list vote) : bool :=
+  existsb (fun x => negb (is_member (snd x))) (counted_from O asis c step [] votes).
+
+(* true iff the input falls into one of the three listed weaknesses of the
+   unrepaired verifier: (a) a threshold written into the header (or into the
+   certificate look-back header) differs from the protocol's, (b) the proposer
+   or a counted voter is not an online chamber member, (c) the proposer claims
+   zero seats *)
+Definition finding_class (O : oracles) (cp : cparams) (vers : list (N * cparams))
+           (seedH : header) (lb : lookback) (certH : header) (certlb : lookback) (h : header) : bool :=
+  match h_cons seedH, h_cons h, h_val h with
+  | Some seedCon, Some cd, Some uv =>
+    negb (cd_pt cd =? cp_pt cp) || negb (cd_vt cd =? cp_vt cp)
+    || (cd_sub cd =? 0)
+    || match cd_signer cd with
+       | Some pk => match find_by_main (lb_vals lb) pk with Some val => negb (is_member val) | None => false end
+       | None => false end
+    || non_member_counted O (mkCommon cp lb (h_hash h) (cd_seed seedCon) (cd_round cd) (uv_index uv) (cd_vt cd))
+                          step_precommit (uv_commit uv)
+    || (is_cert_round (h_number h) &&
+        match h_cons certH, lookup_ver vers (h_version certH), h_cert h with
+        | Some certCon, Some ycp, Some uc =>
+          negb (cd_cvt certCon =? cp_cvt ycp)
+          || non_member_counted O (mkCommon ycp certlb (h_hash h) (cd_seed certCon) (cd_round cd) (uv_index uv) (cd_cvt certCon))
+                                step_certificate (uv_certs uc)
+        | _, _, _ => false
+        end)
+  | _, _, _ => false
+  end.
+
 (* ---- correspondence runner ------------------------------------------------ *)
 
 (* finite tables filled by the harness *)
